@@ -1172,8 +1172,17 @@ func callBuiltin(caller *frame, callpos token.Pos, fn *ssa.Builtin, args []value
 		return &sl[:1][0]
 	case "StringData":
 		panic(unsupported("unsafe.StringData"))
-	case "String": // unsafe.String(ptr, len)
-		panic(unsupported("unsafe.String"))
+	case "String": // unsafe.String(ptr, len): the bytes ptr[0:len] of a byte slice's backing array
+		p, _ := args[0].(*value)
+		n := caller.i.concInt(args[1])
+		if n == 0 {
+			return ""
+		}
+		if p == nil {
+			panic(unsupported("unsafe.String of a nil pointer"))
+		}
+		elems := unsafe.Slice(p, int(n))
+		return mkString(append([]value(nil), elems...))
 	}
 
 	panic("unknown built-in: " + fn.Name())
